@@ -43,6 +43,12 @@ func VH_C07_prehash() {
 	verifAssume(d != 0)
 	salt2[k] ^= d
 	verifAssert("C07.prehash.single-byte-sensitive", preHash(id, salt2) != got)
+	// a handshake is the access key plus the salt: every byte of the key id counts as well
+	if len(id) > 0 {
+		ib := []byte(id)
+		ib[verifChoice("id-pos", len(ib))] ^= []byte{1, 0x20, 0x80, 0xff}[verifChoice("id-delta", 4)]
+		verifAssert("C07.prehash.key-id-sensitive", preHash(string(ib), salt) != got)
+	}
 	verifReach("C07.prehash.done", true)
 }
 
